@@ -276,7 +276,9 @@ class Module(metaclass=ModuleMeta):
         self.x = kw.get("x", 512)
         self.y = kw.get("y", 512)
         self.layer = kw.get("layer", 0)
-        self.scale = kw.get("scale", 256)
+        self.mod_scale = kw.get("mod_scale", 256)
+        if "scale" in kw and "scale" not in self.controllers:
+            self.mod_scale = kw["scale"]
         self.color = kw.get("color", (255, 255, 255))
         self.midi_in_always = kw.get("midi_in_always", False)
         self.midi_in_channel = kw.get("midi_in_channel", 0)
@@ -320,6 +322,19 @@ class Module(metaclass=ModuleMeta):
     def __int__(self):
         """Returns the module number needed to use the module in a pattern."""
         return self.index + 1
+
+    @property
+    def scale(self):
+        """Scale of the module in the module view.
+
+        Stored as ``mod_scale`` because some module types (Smooth) have a
+        controller named ``scale``; for those, use ``mod_scale`` directly.
+        """
+        return self.mod_scale
+
+    @scale.setter
+    def scale(self, value):
+        self.mod_scale = value
 
     @property
     def visualization(self):
@@ -394,7 +409,7 @@ class Module(metaclass=ModuleMeta):
             yield b"SXXX", pack("<i", self.x)
             yield b"SYYY", pack("<i", self.y)
             yield b"SZZZ", pack("<i", self.layer)
-        yield b"SSCL", pack("<I", self.scale)
+        yield b"SSCL", pack("<I", self.mod_scale)
         if in_project:
             yield b"SVPR", pack("<I", int(self.visualization))
         yield b"SCOL", pack("BBB", *self.color)
